@@ -1,5 +1,6 @@
 import XsgModel.Proofs.Ops
 import XsgModel.Props.C04
+import XsgModel.Proofs.OpsNames
 /-!
 # C16 — hand-built element trees keep unique children
 
@@ -90,6 +91,29 @@ theorem C16_render (name : Name) (attrs : List Name) (ops : List Op) (o : Option
   intro t
   have hinv : t.Inv = true := C16_inv_seq name attrs ops
   exact ⟨C04_structs_unique o t hinv, (struct_names_spec _ o t hinv).2, C04_types_resolve o t⟩
+
+/-- names stay legal and attribute names distinct along any sequence of operations that are handed legal names and
+duplicate-free attribute lists -/
+theorem C16_names_seq (p : Name → Bool) (name : Name) (attrs : List Name) (ops : List Op)
+    (hn : p name = true) (ha : ∀ a ∈ attrs, p a = true) (hnd : attrs.Nodup) (hops : ∀ op ∈ ops, op.ok p) :
+    TreeOK p (ops.foldl (fun t op => (applyOp t op).1) (Elem.new name attrs)) := by
+  suffices ∀ t : Elem, t.Inv = true → TreeOK p t → (∀ op ∈ ops, op.ok p) →
+      TreeOK p (ops.foldl (fun t op => (applyOp t op).1) t) from this _ (Inv_new _ _) (TreeOK_new p name attrs hn ha hnd) hops
+  induction ops with
+  | nil => intro t _ h _; exact h
+  | cons op ops ih =>
+    intro t hinv h hall
+    exact ih (fun op' hop' => hops op' (by simp [hop'])) _ (C16_inv t op hinv)
+      (TreeOK_op p t op (hall op (by simp)) hinv h) (fun op' hop' => hall op' (by simp [hop']))
+
+/-- **the rendering clause of C16 in full**: a tree built from `Element::new` by any sequence of the public
+operations that are given names of C04's domain and duplicate-free attribute lists renders to a `WellFormed`
+program (as in C04: unique legal struct names, unique legal field identifiers, resolving types, every non-root
+struct used exactly once) -/
+theorem C16_wellformed (name : Name) (attrs : List Name) (ops : List Op) (o : Options)
+    (hn : nameOK name = true) (ha : ∀ a ∈ attrs, nameOK a = true) (hnd : attrs.Nodup) (hops : ∀ op ∈ ops, op.ok nameOK) :
+    WellFormed ((renderAST o (ops.foldl (fun t op => (applyOp t op).1) (Elem.new name attrs))).map StructDef.plain) :=
+  C04_wellformed o _ (C16_inv_seq name attrs ops) (C16_names_seq nameOK name attrs ops hn ha hnd hops)
 
 /-- the fields of every rendered struct reflect exactly the element's attributes, text flag and children
 (one field each, in the order of the option), whatever tree it is -/
